@@ -174,6 +174,7 @@ type Exec struct {
 	refWrites map[string]map[string]bool // during loop discovery: heap array -> refs it is updated at ("*" = unknown)
 	freshRefs map[string]bool            // during loop discovery: reference terms allocated inside the loop
 	loopRefs  map[string][]Term          // result of the last discovery: per heap array, the loop-invariant refs written
+	nameSeen     map[string]int
 	lastIter     string // state variable of the visited set of the most recent map iteration
 	lastIterSort string
 }
@@ -383,7 +384,14 @@ func (x *Exec) heapWF(l *Loc) {
 		if isByteSlice(l.Elem) {
 			return
 		}
-		body = "(and (>= (sref " + sel + ") 0) (< (sref " + sel + ") " + a0 + "))"
+		body = "(and (>= (sref " + sel + ") 0) (< (sref " + sel + ") " + a0 + ") (>= (slen " + sel + ") 0) (>= (soff " + sel + ") 0))"
+	case *types.Basic:
+		// unsigned integers are non-negative (and within their type's range)
+		lo, hi, ok := intRange(l.Elem)
+		if !ok || lo != "0" {
+			return
+		}
+		body = "(and (<= 0 " + sel + ") (<= " + sel + " " + hi + "))"
 	default:
 		return
 	}
@@ -620,6 +628,16 @@ func (x *Exec) oblige(kind, name string, hyp, goal Term, src string, p token.Pos
 		return nil
 	}
 	full := x.V.funcKey(x.fn) + "#" + name
+	// obligation names are unique within a function: a second obligation of the same
+	// name (e.g. an invariant preserved along a second back edge) gets an ordinal
+	root := x.root()
+	if root.nameSeen == nil {
+		root.nameSeen = map[string]int{}
+	}
+	root.nameSeen[full]++
+	if n := root.nameSeen[full]; n > 1 {
+		full = fmt.Sprintf("%s:%d", full, n)
+	}
 	o := &Oblig{Name: full, Func: x.V.funcKey(x.fn), Kind: kind, Goal: implies(hyp, goal), NLines: len(x.smt.lines), Src: src, Pos: x.pos(p), ex: x}
 	if rc := x.root().cur; rc != nil {
 		o.Anc = ancestors(rc)
@@ -1132,6 +1150,8 @@ func (x *Exec) typeFacts(t Term, ty types.Type) {
 	if _, ok := ty.Underlying().(*types.Slice); ok && !isByteSlice(ty) {
 		x.smt.assume("(and (>= (slen " + t + ") 0) (>= (soff " + t + ") 0))")
 	}
+	// every reference value in the model lies below the allocation frontier
+	x.refFact(t, ty)
 }
 
 func (x *Exec) pushEdge(to *ssa.BasicBlock, cond Term, within map[*ssa.BasicBlock]bool) {
